@@ -15,7 +15,10 @@ type Sym struct {
 }
 
 // opaque is a value whose content is deliberately unknown (stubbed formatting).
-type opaque struct{ tag string }
+type opaque struct {
+	tag      string
+	nonEmpty bool // known to be a non-empty string
+}
 
 func isSym(v value) bool { _, ok := v.(*Sym); return ok }
 
